@@ -46,14 +46,14 @@ def _decoder_functions(repo):
     """(owner class or None, name, fn) for every function of decoder.py."""
     mod = repo.module("decoder")
     out = []
-    from .inline import inlined
+    from .inline import inline_all
     log = []
     for name, fn in mod.functions.items():
-        out.append((None, name, inlined(repo, None, fn, module="decoder", log=log)))
+        out.append((None, name, inline_all(repo, None, fn, module="decoder", log=log)))
     for cname, cnode in mod.classes.items():
         for n in cnode.body:
             if isinstance(n, ast.FunctionDef):
-                out.append((cname, n.name, inlined(repo, cname, n, module="decoder", log=log)))
+                out.append((cname, n.name, inline_all(repo, cname, n, module="decoder", log=log)))
     # a private thin helper that was read in place at its call sites is judged there, not on its own
     # (its parameters stand for the caller's groups)
     return [(o, n, f) for (o, n, f) in out if not (n.startswith("_") and n in log)]
